@@ -4,3 +4,5 @@ import CardVerif.Props.C13
 #print axioms CardVerif.C13.no_internal_error
 #print axioms CardVerif.C13.complete_shape
 #print axioms CardVerif.C13.terminates
+#print axioms CardVerif.C13.no_internal_error_B
+#print axioms CardVerif.C13.no_internal_error_f53
